@@ -1,7 +1,8 @@
 """C06 — loops and conditionals execute exactly the iterations the manual prescribes.
 
 (a) every `for` header over a boundary lattice of first/limit/step/order (and all short ranges run to the end,
-    also next to INT64_MIN/MAX), `forall` over tables of length 0..3;
+    also next to INT64_MIN/MAX), bodies that change the variables the bounds and the step were taken from (evaluated
+    once), `forall` over tables of length 0..3;
 (b) every nesting (bounded depth) of if/for/while/forall/begin with print/break/continue/return/raise and
     writes to the control variable, at top level and inside a function.
 Oracle: the reference interpreter of vf/ctl.py (trace of printed lines, final variables, result), a step budget
@@ -78,6 +79,25 @@ def header_cases(tier):
                             env = {"vb": b, "ve": e, "vs": None if s == "absent" else s, "i": 0}
                             yield n, prog, env, {"kind": "rng", "b": b, "e": e, "s": s, "o": o, "body": bn}
                             n += 1
+    # bounds and step are evaluated once: the body changes the variables they were taken from
+    mods = {
+        "limit+1": [("let", "ve", ("bin", "+", ("var", "ve"), ("int", 1)))],
+        "limit-away": [("let", "ve", ("bin", "-", ("var", "ve"), ("int", 5)))],
+        "limit-null": [("let", "ve", ("nullint",))],
+        "first": [("let", "vb", ("int", 50))],
+        "step+1": [("let", "vs", ("bin", "+", ("var", "vs"), ("int", 1)))],
+        "step-0": [("let", "vs", ("int", 0))],
+        "all": [("let", "ve", ("bin", "+", ("var", "ve"), ("int", 2))), ("let", "vb", ("bin", "-", ("var", "vb"), ("int", 2))), ("let", "vs", ("int", 7))],
+    }
+    for b, e in ((1, 3), (3, 1), (1, 6), (0, 0), (-2, 2)):
+        for s in ("absent", 1, 2):
+            for o in orders:
+                for mn, md in mods.items():
+                    loop = ("for", "i", ("var", "vb"), ("var", "ve"), None if s == "absent" else ("var", "vs"), o, [("printv", "i")] + md)
+                    prog = [("let", "n", ("int", 0)), loop, ("print", "done"), ("printv", "i"), ("printv", "vb"), ("printv", "ve"), ("printv", "vs")]
+                    env = {"vb": b, "ve": e, "vs": 1 if s == "absent" else s, "i": 0}
+                    yield n, prog, env, {"kind": "once", "b": b, "e": e, "s": s, "o": o, "mod": mn}
+                    n += 1
     # literal bounds (no variables), a sample of the same lattice
     for b in [1, 2, MAX - 1, MAX]:
         for e in [1, 2, MAX - 1, MAX]:
@@ -286,7 +306,7 @@ def check(case, res):
     m = case.meta
     st = res["steps"]
     kind = m["kind"]
-    if kind in ("hdr", "rng", "lit", "forall"):
+    if kind in ("hdr", "rng", "lit", "forall", "once"):
         k = len(st) - 6
         run, out, dump, prun, pout, pdump = st[k], text(st[k + 1]), st[k + 2], st[k + 3], text(st[k + 4]), st[k + 5]
         env = {kk: (list(v) if isinstance(v, list) else v) for kk, v in m["env"].items()}
